@@ -75,6 +75,17 @@ class Untranslatable(Exception):
     pass
 
 
+_READS = None      # while a set: the files (relative to the tree) the translator in progress has read
+
+
+def _read(path, repo=None):
+    """source text of a file of the tree under test (reads are recorded per translated function: the self-tests
+    re-translate only what depends on the file they edited)"""
+    if _READS is not None:
+        _READS.add(os.path.relpath(path, repo) if repo else path)
+    return open(path).read()
+
+
 # ----------------------------------------------------------------------------------------- normalisation
 
 class _Awaits(ast.NodeTransformer):
@@ -103,7 +114,7 @@ class _Rename(ast.NodeTransformer):
 def method(repo, rel, cls, name):
     path = os.path.join(repo, rel)
     try:
-        tree = ast.parse(open(path).read())
+        tree = ast.parse(_read(path, repo))
     except (OSError, SyntaxError) as e:
         raise Untranslatable(f"cannot parse {rel}: {e}")
     if cls is None:
@@ -1250,7 +1261,7 @@ def _prop_fn(repo, name, setter=False):
     """the getter (or setter) of the property `name` of class StateMachine"""
     path = os.path.join(repo, "statemachine/statemachine.py")
     try:
-        tree = ast.parse(open(path).read())
+        tree = ast.parse(_read(path, repo))
     except (OSError, SyntaxError) as e:
         raise Untranslatable(f"cannot parse statemachine.py: {e}")
     for c in tree.body:
@@ -1493,7 +1504,7 @@ def tr_registry(repo):
             continue
         raise Untranslatable(f"CallbacksExecutor.add: statement at line {st.lineno} not recognised: {t!r}")
     # `insort` must be bisect's (insort_right)
-    tree = ast.parse(open(os.path.join(repo, cb)).read())
+    tree = ast.parse(_read(os.path.join(repo, cb), repo))
     if not any(isinstance(n, ast.ImportFrom) and n.module == "bisect" and any(a.name == "insort" and a.asname is None for a in n.names)
                for n in tree.body):
         raise Untranslatable("callbacks.py: `insort` is not `from bisect import insort`")
@@ -1695,7 +1706,7 @@ def tr_decl(repo):
             cp.append(".ret")
             continue
         raise Untranslatable(f"_copy_with_args: statement at line {x.lineno} not recognised: {t!r}")
-    tree = ast.parse(open(os.path.join(repo, tr)).read())
+    tree = ast.parse(_read(os.path.join(repo, tr), repo))
     if not any(isinstance(n, ast.ImportFrom) and n.module == "copy" and any(a.name == "copy" and a.asname is None for a in n.names)
                for n in tree.body):
         raise Untranslatable("transition.py: `copy` is not `from copy import copy`")
@@ -1884,7 +1895,7 @@ def tr_eng(repo):
                   "BaseEngine.__init__")
     # no class-level attributes on the engine classes (a lock or a queue shared by all machines)
     for rel, cls in ((base, "BaseEngine"), (sy, "SyncEngine"), (asy, "AsyncEngine")):
-        tree = ast.parse(open(os.path.join(repo, rel)).read())
+        tree = ast.parse(_read(os.path.join(repo, rel), repo))
         for c in tree.body:
             if isinstance(c, ast.ClassDef) and c.name == cls:
                 for x in c.body:
@@ -1905,7 +1916,7 @@ def tr_eng(repo):
     if not isinstance(fn, ast.AsyncFunctionDef):
         raise Untranslatable("AsyncEngine.activate_initial_state is not `async def`")
     aact = _stmts(fn, A, "AsyncEngine.activate_initial_state")
-    tree = ast.parse(open(os.path.join(repo, asy)).read())
+    tree = ast.parse(_read(os.path.join(repo, asy), repo))
     own_start = any(isinstance(c, ast.ClassDef) and c.name == "AsyncEngine"
                     and any(isinstance(f, (ast.FunctionDef, ast.AsyncFunctionDef)) and f.name in ("start", "put")
                             for f in c.body) for c in tree.body)
@@ -2059,7 +2070,7 @@ def tr_spec(repo):
         if not m:
             raise Untranslatable(f"State._setup: statement at line {x.lineno} not recognised: {t!r}")
         ss.append(conv(m.group(1), m.group(2)))
-    tree = ast.parse(open(os.path.join(repo, cb)).read())
+    tree = ast.parse(_read(os.path.join(repo, cb), repo))
     prios = None
     for c in tree.body:
         if isinstance(c, ast.ClassDef) and c.name == "CallbackPriority":
@@ -2092,66 +2103,66 @@ TRANSLATORS = {"eventcall": tr_eventcall, "send": tr_send, "start": tr_start, "i
                "getstate": tr_getstate, "setstate": tr_setstate}
 
 
-def translate(repo):
-    """-> {lean name: (lean type, term text | None, error | None)}"""
+def _translate_one(repo, name, rel, cls, meth, key, ty):
+    try:
+        fn = method(repo, rel, cls, meth)
+        if key == "reserved":
+            return (ty, tr_reserved(fn), None)
+        if key == "parser":
+            return (ty, tr_parser(fn), None)
+        if key == "callable":
+            return (ty, tr_callable(fn), None)
+        if key == "visit":
+            return (ty, tr_visit(fn), None)
+        if key == "check":
+            return (ty, tr_check(fn, repo), None)
+        if key == "transinit":
+            return (ty, tr_transinit(fn), None)
+        if key == "store":
+            return (ty, tr_store(repo), None)
+        if key == "allowed":
+            return (ty, tr_allowed(repo), None)
+        if key == "registry":
+            return (ty, tr_registry(repo), None)
+        if key == "decl":
+            return (ty, tr_decl(repo), None)
+        if key == "diagram":
+            return (ty, tr_diagram(repo), None)
+        if key == "eng":
+            return (ty, tr_eng(repo), None)
+        if key == "factory":
+            return (ty, tr_factory(repo), None)
+        if key == "specs":
+            return (ty, tr_spec(repo), None)
+        if key == "injected":
+            if [ast.unparse(d) for d in fn.decorator_list] != ["property"]:
+                raise Untranslatable("extended_kwargs is not a property")
+            fn.decorator_list = []
+        is_async = isinstance(fn, ast.AsyncFunctionDef)
+        if is_async != (name in ASYNC_DEF):
+            raise Untranslatable(f"{cls}.{meth}: {'async def' if is_async else 'def'}")
+        return (ty, TRANSLATORS[key](fn), None)
+    except Untranslatable as e:
+        return (ty, None, str(e))
+    except RecursionError as e:   # pathological source
+        return (ty, None, f"{type(e).__name__}")
+
+
+def translate(repo, only=None, reads=None):
+    """-> {lean name: (lean type, term text | None, error | None)}; `only`: just these names; `reads` (a dict): filled
+    with the files each name's translation read"""
+    global _READS
     res = {}
     for name, rel, cls, meth, key, ty in FUNCS:
+        if only is not None and name not in only:
+            continue
+        _READS = set() if reads is not None else None
         try:
-            fn = method(repo, rel, cls, meth)
-            if key == "reserved":
-                res[name] = (ty, tr_reserved(fn), None)
-                continue
-            if key == "parser":
-                res[name] = (ty, tr_parser(fn), None)
-                continue
-            if key == "callable":
-                res[name] = (ty, tr_callable(fn), None)
-                continue
-            if key == "visit":
-                res[name] = (ty, tr_visit(fn), None)
-                continue
-            if key == "check":
-                res[name] = (ty, tr_check(fn, repo), None)
-                continue
-            if key == "transinit":
-                res[name] = (ty, tr_transinit(fn), None)
-                continue
-            if key == "store":
-                res[name] = (ty, tr_store(repo), None)
-                continue
-            if key == "allowed":
-                res[name] = (ty, tr_allowed(repo), None)
-                continue
-            if key == "registry":
-                res[name] = (ty, tr_registry(repo), None)
-                continue
-            if key == "decl":
-                res[name] = (ty, tr_decl(repo), None)
-                continue
-            if key == "diagram":
-                res[name] = (ty, tr_diagram(repo), None)
-                continue
-            if key == "eng":
-                res[name] = (ty, tr_eng(repo), None)
-                continue
-            if key == "factory":
-                res[name] = (ty, tr_factory(repo), None)
-                continue
-            if key == "specs":
-                res[name] = (ty, tr_spec(repo), None)
-                continue
-            if key == "injected":
-                if [ast.unparse(d) for d in fn.decorator_list] != ["property"]:
-                    raise Untranslatable("extended_kwargs is not a property")
-                fn.decorator_list = []
-            is_async = isinstance(fn, ast.AsyncFunctionDef)
-            if is_async != (name in ASYNC_DEF):
-                raise Untranslatable(f"{cls}.{meth}: {'async def' if is_async else 'def'}")
-            res[name] = (ty, TRANSLATORS[key](fn), None)
-        except Untranslatable as e:
-            res[name] = (ty, None, str(e))
-        except RecursionError as e:   # pathological source
-            res[name] = (ty, None, f"{type(e).__name__}")
+            res[name] = _translate_one(repo, name, rel, cls, meth, key, ty)
+        finally:
+            if reads is not None:
+                reads[name] = _READS
+            _READS = None
     return res
 
 
@@ -2323,8 +2334,8 @@ def harmless(repo):
     -> (applied, unchanged, [edits that changed something])"""
     import shutil
     import tempfile
-    base = translate(repo)
-    files = sorted({rel for _n, rel, *_ in FUNCS} | {rel for rel, _o, _n in HARMLESS_EDITS} | {rel for rel, _o, _n in SELFTEST_EDITS})
+    reads = {}
+    base = translate(repo, reads=reads)
     applied, same, changed = 0, 0, []
     tmp = tempfile.mkdtemp(prefix="srcgen_harmless_")
     try:
@@ -2332,14 +2343,14 @@ def harmless(repo):
             os.makedirs(os.path.dirname(os.path.join(tmp, rel)), exist_ok=True)
             shutil.copy(os.path.join(repo, rel), os.path.join(tmp, rel))
         for rel, old, new in HARMLESS_EDITS:
-            src = open(os.path.join(repo, rel)).read()
+            src = _read(os.path.join(repo, rel), repo)
             if old not in src:
                 continue
             applied += 1
             with open(os.path.join(tmp, rel), "w") as f:
                 f.write(src.replace(old, new))
-            got = translate(tmp)
-            if all(got[k][1] == base[k][1] and got[k][2] == base[k][2] for k in base):
+            got = translate(tmp, only={k for k in base if rel in reads[k]})
+            if all(got[k][1] == base[k][1] and got[k][2] == base[k][2] for k in got):
                 same += 1
             else:
                 changed.append((rel, old.strip()[:60]))
@@ -2363,7 +2374,8 @@ def selftest(repo):
     notice each of them. -> (applied, detected, [edits it did not notice])"""
     import shutil
     import tempfile
-    base = translate(repo)
+    reads = {}
+    base = translate(repo, reads=reads)
     applied, detected, blind = 0, 0, []
     tmp = tempfile.mkdtemp(prefix="srcgen_selftest_")
     try:
@@ -2375,14 +2387,14 @@ def selftest(repo):
         if any(same[k][1] != base[k][1] or same[k][2] != base[k][2] for k in base):
             raise RuntimeError("translator self-test: the unedited scratch copy translates differently")
         for rel, old, new in SELFTEST_EDITS:
-            src = open(os.path.join(repo, rel)).read()
+            src = _read(os.path.join(repo, rel), repo)
             if src.count(old) != 1:
                 continue            # the tree under test no longer has that text: nothing to edit
             applied += 1
             with open(os.path.join(tmp, rel), "w") as f:
                 f.write(src.replace(old, new))
-            got = translate(tmp)
-            if any(got[k][1] != base[k][1] or got[k][2] != base[k][2] for k in base):
+            got = translate(tmp, only={k for k in base if rel in reads[k]})   # (what read the edited file)
+            if any(got[k][1] != base[k][1] or got[k][2] != base[k][2] for k in got):
                 detected += 1
             else:
                 blind.append((rel, old.strip()[:60]))
